@@ -134,14 +134,16 @@ def rescan_corpus():
         "plugins_src/myplug/plugin.py": 'pytest_plugins = ["myplug.lvl1"]\n' + FXT.format("fx_plugin"),
         "plugins_src/myplug/lvl1.py": "from .lvl2 import *\n" + FXT.format("fx_lvl1"),
         "plugins_src/myplug/lvl2.py": 'pytest_plugins = ["myplug.lvl3"]\n' + FXT.format("fx_lvl2"),
-        "plugins_src/myplug/lvl3.py": FXT.format("fx_lvl3"),
+        "plugins_src/myplug/lvl3.py": "from .lvl4 import *\n" + FXT.format("fx_lvl3"),
+        "plugins_src/myplug/lvl4.py": 'pytest_plugins = ["myplug.lvl5"]\n' + FXT.format("fx_lvl4"),
+        "plugins_src/myplug/lvl5.py": FXT.format("fx_lvl5"),
         "tests/conftest.py": 'pytest_plugins = ["myplug.lvl1"]\n',
-        "tests/unit/deep/conftest.py": "from myplug.lvl2 import *\n",
+        "tests/unit/deep/conftest.py": "from myplug.lvl2 import *\nfrom myplug.lvl4 import *\n",
         sp + "/__editable__.myplug-0.1.0.pth": "@BASE@/ws/plugins_src\n",
         sp + "/myplug-0.1.0.dist-info/direct_url.json": '{"url": "file://@BASE@/ws/plugins_src", "dir_info": {"editable": true}}',
         sp + "/myplug-0.1.0.dist-info/entry_points.txt": "[pytest11]\nmyplug = myplug.plugin\n",
     }
-    chain = ["plugin", "lvl1", "lvl2", "lvl3"]
+    chain = ["plugin", "lvl1", "lvl2", "lvl3", "lvl4", "lvl5"]
     tests = ["tests/test_1.py", "tests/unit/deep/test_0.py", "tests/unit/test_2.py"]
     for k, t in enumerate(tests):
         files[t] = "def test_%d(%s):\n    pass\n" % (k, ", ".join("fx_" + m for m in chain))
@@ -156,7 +158,7 @@ def rescan_part(r, tier):
     cases = core.Cases()
     groups = []
     nws = 5 if tier == "quick" else 40
-    reps = 6 if tier == "quick" else 10
+    reps = 8 if tier == "quick" else 12
     for i in range(nws):
         files, tests, chain = rescan_corpus() if i == 0 else gen_rescan_workspace(r.rng)
         names = []
